@@ -203,6 +203,8 @@ class Reader:
         self._static_len = {}
 
     def flag(self, f):
+        if f.startswith("local:"): f = "locals"          # which locals a method uses is not worth pinning
+        if f == "branch-on:": return
         if f not in self.flags: self.flags.append(f)
 
     # ------------------------------------------------------------------ sizes of other classes
@@ -280,6 +282,15 @@ class Reader:
         if kind == 's':
             sa = self_attr(a)
             if sa is not None: return ('blob', norm_attr(sa), w)
+            if isinstance(a, ast.Name) and self.m.has_attr(self.cls, a.id):
+                # a local named like the attribute it renders (`reg = o.pack(header_only=True)`); if one of its
+                # definitions is `struct.pack('!Q', …)` it is that integer, not raw bytes
+                for rhs in env['assigns'].get(a.id, []):
+                    if isinstance(rhs, ast.Call) and U(rhs.func) == 'struct.pack' and isinstance(rhs.args[0], ast.Constant):
+                        ws = parse_fmt(rhs.args[0].value)
+                        if len(ws) == 1 and ws[0][0] == 'u' and ws[0][1] == w:
+                            self.flag("computed:" + a.id); return ('uint', a.id, w)
+                self.flag("computed:" + a.id); return ('blob', a.id, w)
             at = self.attrs_in(a, env['assigns'])
             if len(at) == 1:
                 self.flag("computed:" + at[0]); return ('blob', at[0], w)
@@ -311,6 +322,8 @@ class Reader:
             self.flag("computed:" + a.id); return ('uint', a.id, w)
         if len(at) == 1:
             self.flag("computed:" + at[0]); return ('uint', at[0], w)
+        if isinstance(a, ast.Name) and len(at) > 1:
+            self.flag("computed:%s(%s)" % (a.id, ",".join(sorted(at)))); return ('uint', a.id, w)
         raise Irregular("argument %s reads %s" % (u, at or "no attribute"))
 
     def bytes_expr(self, e, env, binding=False):
@@ -428,6 +441,9 @@ class Reader:
                     if isinstance(s.value, ast.Call) and isinstance(s.value.func, ast.Attribute) and self_attr(s.value.func) is not None \
                             and s.value.func.attr.startswith('_pack'): raise
                     self.flag("local:%s" % t); continue
+            if isinstance(s, ast.Assign) and len(s.targets) == 1 and isinstance(s.targets[0], ast.Attribute) \
+                    and isinstance(s.targets[0].value, ast.Name) and s.targets[0].value.id != 'self' and not touches:
+                self.flag("local:%s.%s" % (s.targets[0].value.id, s.targets[0].attr)); continue
             if isinstance(s, ast.AugAssign) and isinstance(s.target, ast.Name) and isinstance(s.op, ast.Add) and s.target.id in env['bytes']:
                 env['bytes'][s.target.id] += self.bytes_expr(s.value, env); continue
             if isinstance(s, ast.Return):
@@ -583,7 +599,11 @@ class Reader:
                     names = [n.id for n in ast.walk(v) if isinstance(n, ast.Name)]
                     loc = sorted({n for n in names if any(p[0] == 'local' and p[1] == n for p in pieces)})
                     if len(loc) == 1:
-                        st['locals_to_attr'][loc[0]] = (norm_attr(sa), True); continue
+                        if loc[0] in st['locals_to_attr'] and st['locals_to_attr'][loc[0]][0] != norm_attr(sa):
+                            st['locals_to_attr'][loc[0]] = (loc[0], True, sorted(set(st['locals_to_attr'][loc[0]][2:] and st['locals_to_attr'][loc[0]][2] or [st['locals_to_attr'][loc[0]][0]]) | {norm_attr(sa)}))
+                        else:
+                            st['locals_to_attr'][loc[0]] = (norm_attr(sa), True)
+                        continue
                     if isinstance(v, (ast.List, ast.Constant)) or U(v) in ('[]', 'None'): continue    # self.ports = []
                 # local bookkeeping (portCount = ..., remaining = ...)
                 if isinstance(t, ast.Name):
@@ -659,8 +679,9 @@ class Reader:
             if p[0] == 'local':
                 name, w, k = p[1], p[2], p[3]
                 if name in st['locals_to_attr']:
-                    attr, computed = st['locals_to_attr'][name]
-                    if computed: self.flag("computed:" + attr)
+                    ent = st['locals_to_attr'][name]
+                    attr, computed = ent[0], ent[1]
+                    if computed: self.flag("computed:" + attr + ("(%s)" % ",".join(ent[2]) if len(ent) > 2 else ""))
                     out.append(('blob', attr, w) if k == 's' else ('uint', attr, w))
                 elif name in lens:
                     out.append(('lenSelf', w))
